@@ -142,27 +142,28 @@ def matrices(rep):
                     oki = order.get((2,)) == mi["si"] and order.get((3,)) == mj["ri"]
                     ends.add((mi["s"], mj["r"]))
             rep.ob("O17.1", "R15", mp, oki, alpha(tg, mp.node), "entry [species row, reaction column]: rows are indexed by the species end, columns by the reaction end", node=n)
-    # species/reaction end classification
-    sel = [n for n in walk_local(mp.node) if isinstance(n, ast.Assign) and isinstance(n.targets[0], ast.Tuple) and len(n.targets[0].elts) == 2
-           and isinstance(n.value, ast.Tuple) and {norm(e) for e in n.value.elts} == {u, v}]
-    ok = len(sel) == 2 and len({norm(n.targets[0]) for n in sel}) == 1
-    if ok:
-        # the names used as row / column index are (species end, reaction end) in this order
-        se, re_ = [norm(e) for e in sel[0].targets[0].elts]
-        ok = ends == {(se, re_)}
-    if ok:
-        for n in sel:
-            gs = guards_of(pm, n, mp.node)
-            first = norm(n.value.elts[0])
-            t = gs[0][0] if gs else None
-            # the first member of the pair is the end whose node data says kind == 'species'
-            kinds = [c for c in ast.walk(t) if isinstance(c, ast.Compare) and is_const(c.comparators[0], "species")] if t is not None else []
-            okk = False
-            for c in kinds:
-                m = pmatch("$$d.get('kind')", c.left)
-                if m is not None and pmatch(f"{Gv}.nodes[{first}]", origin(local_defs(lp[0]), c.left.func.value)) is not None:
-                    okk = True
-            ok = ok and okk
+    # species/reaction end classification (normal form N10: `s, r = u, v` reads `s = u`; `r = v`)
+    ok = False
+    if len(ends) == 1:
+        se, re_ = next(iter(ends))
+        asg = {nm_: [n for n in walk_local(mp.node) if isinstance(n, ast.Assign) and len(n.targets) == 1 and norm(n.targets[0]) == nm_ and norm(n.value) in (u, v)] for nm_ in (se, re_)}
+        ok = len(asg[se]) == 2 and len(asg[re_]) == 2 and {norm(n.value) for n in asg[se]} == {u, v} and {norm(n.value) for n in asg[re_]} == {u, v}
+        if ok:
+            for n in asg[se]:
+                gs = guards_of(pm, n, mp.node)
+                first = norm(n.value)
+                # in the same branch the reaction end is the other end
+                twin = [m_ for m_ in asg[re_] if [(norm(t_), s_) for t_, s_ in guards_of(pm, m_, mp.node)] == [(norm(t_), s_) for t_, s_ in gs]]
+                ok = ok and len(twin) == 1 and norm(twin[0].value) != first
+                t = gs[0][0] if gs else None
+                # the species end is the end whose node data says kind == 'species'
+                kinds = [c for c in ast.walk(t) if isinstance(c, ast.Compare) and is_const(c.comparators[0], "species")] if t is not None else []
+                okk = False
+                for c in kinds:
+                    m = pmatch("$$d.get('kind')", c.left)
+                    if m is not None and pmatch(f"{Gv}.nodes[{first}]", origin(local_defs(lp[0]), c.left.func.value)) is not None:
+                        okk = True
+                ok = ok and okk
     rep.ob("O17.1", "R15", mp, ok, "s_node, r_node = <species end>, <reaction end>", "the end tagged 'species' becomes the row, the end tagged 'reaction' the column")
     nsp = {x.index: nm_ for nm_, xs in mdefs.items() for x in xs if x.index is not None and isinstance(x.value, ast.Call) and call_name(x.value) == "_species_and_reaction_order"}
     shapes_ok = True
